@@ -5,6 +5,7 @@ import (
 	"fmt"
 	"math"
 	"reflect"
+	"strconv"
 	"strings"
 
 	. "github.com/pbenner/autodiff"
@@ -65,6 +66,7 @@ func evalTerm(raw json.RawMessage, x, y float64) (float64, error) {
 
 // full state of a scalar: value, order, N and every derivative / Hessian slot
 type scalState struct {
+	I     int64 // exact value of the integer types
 	V     float64
 	Order int
 	N     int
@@ -73,7 +75,7 @@ type scalState struct {
 }
 
 func stateOf(s ConstScalar) scalState {
-	st := scalState{V: s.GetFloat64(), Order: s.GetOrder(), N: s.GetN()}
+	st := scalState{I: s.GetInt64(), V: s.GetFloat64(), Order: s.GetOrder(), N: s.GetN()}
 	if st.Order >= 1 {
 		for i := 0; i < st.N; i++ {
 			st.G = append(st.G, s.GetDerivative(i))
@@ -114,7 +116,7 @@ func (s scalState) json() vh.M {
 		}
 		return r
 	}
-	return vh.M{"v": fmtF(s.V), "order": s.Order, "n": s.N, "grad": f(s.G), "hess": f(s.H)}
+	return vh.M{"v": fmtF(s.V), "int64": fmt.Sprint(s.I), "order": s.Order, "n": s.N, "grad": f(s.G), "hess": f(s.H)}
 }
 
 type scalOut struct {
@@ -125,15 +127,75 @@ type scalOut struct {
 	noPair   bool
 }
 
-// scalar operands: for the magic types x and y are the two active variables
-// (order 2), so that gradient and Hessian slots are populated.
+// resolve a symbolic integer against the bounds of the element type
+func (t *elemType) resolve(s *symT) int64 {
+	bits := map[string]uint{"Int8": 8, "Int16": 16, "Int32": 32, "Int64": 64, "Int": uint(strconv.IntSize)}[t.name]
+	switch s.B {
+	case "min":
+		return -(int64(1) << (bits - 1)) + int64(s.O)
+	case "max":
+		return (int64(1)<<(bits-1) - 1) + int64(s.O)
+	}
+	return int64(s.O)
+}
+
+// applies reports whether a scalar record is instantiated for the element type
+func scalarApplies(t *elemType, rc *rec) bool {
+	switch rc.Sp {
+	case "fs":
+		if t.class == "int" {
+			return false
+		}
+		if t.class == "float" { // derivative orders only matter to the magic types
+			return rc.Xo == nil || *rc.Xo == 2
+		}
+	case "ib":
+		return t.class == "int"
+	}
+	return true
+}
+
+// scalar operands: for the magic types x and y are active variables (order 2
+// unless the record prescribes the orders; order 0 = a constant), so that
+// gradient and Hessian slots are populated.
 func scalarOperands(t *elemType, rc *rec) (r, x, y, tmp Scalar) {
-	r = NewScalar(t.st, float64(rc.P))
-	x = NewScalar(t.st, float64(rc.X))
-	y = NewScalar(t.st, float64(rc.Y))
 	tmp = NullScalar(t.st)
+	switch rc.Sp {
+	case "fs":
+		r = NewScalar(t.st, float64(rc.P))
+		x = NewScalar(t.st, classValue(rc.Xx[0], rc.Xx[2]))
+		y = NewScalar(t.st, classValue(rc.Yy[0], rc.Yy[2]))
+	case "ib":
+		r = NewScalar(t.st, float64(rc.P))
+		x = NullScalar(t.st)
+		x.SetInt64(t.resolve(rc.Xb))
+		y = NullScalar(t.st)
+		y.SetInt64(t.resolve(rc.Yb))
+	default:
+		r = NewScalar(t.st, float64(rc.P))
+		x = NewScalar(t.st, float64(rc.X))
+		y = NewScalar(t.st, float64(rc.Y))
+	}
 	if t.class == "real" {
-		Variables(2, x.(MagicScalar), y.(MagicScalar))
+		xo, yo := 2, 2
+		if rc.Xo != nil && rc.Yo != nil {
+			xo, yo = *rc.Xo, *rc.Yo
+		}
+		n := 0
+		if xo > 0 {
+			n++
+		}
+		if yo > 0 {
+			n++
+		}
+		i := 0
+		if xo > 0 {
+			x.(MagicScalar).SetVariable(i, n, xo)
+			i++
+		}
+		if yo > 0 {
+			y.(MagicScalar).SetVariable(i, n, yo)
+		}
 	}
 	if rc.Op == "Sign" || rc.Op == "Equals" || rc.Op == "Greater" || rc.Op == "Smaller" {
 		r = x // the receiver is the first operand
@@ -204,6 +266,9 @@ func scalarCase(rc *rec, line []byte, out *vh.Out, st *stats) {
 	n := 0
 	pairs := map[string]bool{}
 	for _, t := range elemTypes {
+		if !scalarApplies(t, rc) {
+			continue
+		}
 		gen := runScalar(t, rc, false)
 		conc := runScalar(t, rc, true)
 		if gen.noPair || conc.noPair {
@@ -211,7 +276,8 @@ func scalarCase(rc *rec, line []byte, out *vh.Out, st *stats) {
 		}
 		n++
 		pairs[fmt.Sprintf("%s.%s/%s", t.name, rc.Op, strings.ToUpper(rc.Op))] = true
-		fail := func(variant, what string, extra vh.M) {
+		var fail func(variant, what string, extra vh.M)
+		fail = func(variant, what string, extra vh.M) {
 			d := vh.M{"record": json.RawMessage(line), "type": t.name, "variant": variant,
 				"generic":  vh.M{"panic": gen.panicMsg, "state": gen.st.json(), "b": gen.b, "i": gen.i},
 				"concrete": vh.M{"panic": conc.panicMsg, "state": conc.st.json(), "b": conc.b, "i": conc.i}}
@@ -245,7 +311,7 @@ func scalarCase(rc *rec, line []byte, out *vh.Out, st *stats) {
 					fail(variant, "result", nil)
 					return false
 				}
-			case "v":
+			case "v", "x":
 				if intDiv {
 					return true
 				}
@@ -253,11 +319,21 @@ func scalarCase(rc *rec, line []byte, out *vh.Out, st *stats) {
 					fail(variant, "value", nil)
 					return false
 				}
+			case "sym": // integer bounds: exact two's complement result
+				if want := t.resolve(rc.Sexp.Sym); o.st.I != want {
+					fail(variant, "value", vh.M{"want_int64": fmt.Sprint(want)})
+					return false
+				}
+			case "any":
 			case "term":
 				if t.class == "int" {
 					return true // the meaning of exp/log/... on integer types is left to C02
 				}
-				want, err := evalTerm(rc.Sexp.Term, float64(rc.X), float64(rc.Y))
+				xv, yv := float64(rc.X), float64(rc.Y)
+				if rc.Sp == "fs" {
+					xv, yv = classValue(rc.Xx[0], rc.Xx[2]), classValue(rc.Yy[0], rc.Yy[2])
+				}
+				want, err := evalTerm(rc.Sexp.Term, xv, yv)
 				if err != nil {
 					vh.Fatal(err)
 				}
@@ -265,23 +341,49 @@ func scalarCase(rc *rec, line []byte, out *vh.Out, st *stats) {
 				if t.bits32 {
 					tol = 1e-5
 				}
-				if math.IsNaN(want) || math.IsInf(want, 0) {
-					return true // undefined point: discarded
-				}
-				if !(math.Abs(o.st.V-want) <= tol*(1+math.Abs(want))) { // NaN observed: fails
+				switch {
+				case math.IsNaN(want):
+					if !math.IsNaN(o.st.V) {
+						fail(variant, "value", vh.M{"term_value": fmtF(want)})
+						return false
+					}
+				case math.IsInf(want, 0):
+					if o.st.V != want {
+						fail(variant, "value", vh.M{"term_value": fmtF(want)})
+						return false
+					}
+				case !(math.Abs(o.st.V-want) <= tol*(1+math.Abs(want))): // NaN observed: fails
 					fail(variant, "value", vh.M{"term_value": fmtF(want)})
 					return false
 				}
 			}
 			return true
 		}
+		same := gen.b == conc.b && gen.i == conc.i && sameState(gen.st, conc.st) && (t.class != "int" || gen.st.I == conc.st.I)
+		if rc.Sp != "" {
+			// special operands: the two variants must agree in class and in every slot (NaN = NaN);
+			// a class both of them miss is information for C02 (see bothDeviate)
+			if !same {
+				what := "differ_special"
+				if rc.Op == "Sqrt" && rc.Xx[2] == 2 && math.IsInf(gen.st.V, 1) && math.IsNaN(conc.st.V) {
+					what = "differ_special_sqrt_neg_inf" // generic Sqrt = Pow(x, 0.5): +Inf for -Inf
+				}
+				fail("generic_vs_concrete", what, nil)
+				continue
+			}
+			quiet := fail
+			fail = func(variant, what string, extra vh.M) {
+				bothDeviate(st, vh.M{"engine": "scalars", "op": rc.Op, "what": what, "class": t.class},
+					vh.M{"type": t.name, "record": json.RawMessage(line), "both": vh.M{"state": conc.st.json(), "b": conc.b, "i": conc.i}, "extra": extra})
+			}
+			check("concrete", conc)
+			fail = quiet
+			continue
+		}
 		okc := check("concrete", conc)
 		// 2. generic and concrete against each other: every slot identical
-		if okc {
-			same := gen.b == conc.b && gen.i == conc.i && sameState(gen.st, conc.st)
-			if !same {
-				fail("generic_vs_concrete", "differ", nil)
-			}
+		if okc && !same {
+			fail("generic_vs_concrete", "differ", nil)
 		}
 	}
 	st.mu.Lock()
